@@ -69,6 +69,24 @@ def processcfg_order():
     return 'bool', cbool(ok)
 
 
+def processcfg_initialises_every_module():
+    """_processCfg: between get_descriptive_data('') and the start loop:
+    `for modname in list(self.secnode.modules): self.secnode.get_module(modname)` (a snapshot of all module names,
+    so that modules which are neither exported nor attached are initialised as well)"""
+    f = find_func(find_class(parse('frappy/server.py'), 'Server'), '_processCfg')
+    body = f.body
+    i2 = _index_of(body, lambda s: isinstance(s, ast.Expr) and bool(_calls(s, 'get_descriptive_data')),
+                   'get_descriptive_data()')
+    i3 = _index_of(body, lambda s: bool(_calls(s, 'startModule')), 'startModule()')
+    idx = [i for i, s in enumerate(body) if isinstance(s, ast.For) and src(s.iter) == 'list(self.secnode.modules)']
+    if len(idx) != 1:
+        return 'bool', 'false'
+    loop = body[idx[0]]
+    ok = i2 < idx[0] < i3 and len(loop.body) == 1 and isinstance(loop.target, ast.Name) and \
+        src(loop.body[0]) == f'self.secnode.get_module({loop.target.id})' and not loop.orelse
+    return 'bool', cbool(ok)
+
+
 def descriptive_data_initialises_exported():
     """get_descriptive_data: `for modulename in self.export: module = self.get_module(modulename)`"""
     f = find_func(_secnode(), 'get_descriptive_data')
@@ -238,7 +256,8 @@ def start_timeout():
     return 'nat', cnat(const(vals[0]))
 
 
-FACTS = [get_module_early_then_init_then_flag, processcfg_order, descriptive_data_initialises_exported,
+FACTS = [get_module_early_then_init_then_flag, processcfg_order, processcfg_initialises_every_module,
+         descriptive_data_initialises_exported,
          shutdown_stops_pollers_first, sorted_modules_reversed_postorder, pollthread_writes_then_reads_then_started,
          startmodule_starts_thread_iff_polled, initmodule_registers_at_io, attached_get_checks,
          hasio_creates_io_once_per_uri, multievent_set_only_when_all_triggered, start_timeout]
